@@ -138,6 +138,9 @@ fn main() {
 		if res == "ok" && !(inc >= out + min_delta && inc > h + 2 * max_conf + grace && out > h + grace) {
 			rec.oracle_fail(format!("peel_payment_onion forwarded unsafe HTLC h={} out={} in={}", h, out, inc));
 		}
+		// the test onion itself could not be built (heights next to 2^31: the route's CLTV total overflows in the
+		// harness's own onion construction): not a verdict of the code under test, the case is not compared
+		if res.starts_with("err build") { continue; }
 		rec.case(&format!("peelfwd {} {} {}", h, out, inc), &res, &class, true);
 	}
 	// (3) public API: final hop
@@ -154,6 +157,7 @@ fn main() {
 		if res == "ok" && !(htlc_cltv > h + 1 + 2 * max_conf + grace) {
 			rec.oracle_fail(format!("final hop accepted HTLC expiring too soon h={} cltv={}", h, htlc_cltv));
 		}
+		if res.starts_with("err build") { continue; } // the test onion itself could not be built (heights next to 2^31)
 		rec.case(&format!("peelfinal {} {} {}", h, onion_cltv, htlc_cltv), &res, &class, true);
 	}
 	// (4) end to end: a forwarded HTLC whose downstream peer goes silent. B must go on chain downstream exactly at
